@@ -71,11 +71,11 @@ theorem readRecs_spec (tail : Bytes) : ∀ (recs : List (Feature × Nat)),
     omega
 
 /-- the feature tables are found at the recorded offsets; the running total is the offset -/
-theorem readTables_spec (H : Bytes) : ∀ (fs : List Feature) (P : List Nat),
+theorem readTables_spec (H c : Bytes) : ∀ (fs : List Feature) (P : List Nat),
     (∀ f ∈ fs, f.lookups.length < 65536 ∧ ∀ x ∈ f.lookups, x < 65536) →
     (∀ w ∈ P, w < 65536) →
     (offsets fs (H.length + 2 * P.length)).getLastD 0 ≤ 0xFFFF →
-    readTables (H ++ wordsToBytes (P ++ fs.flatMap tableWords))
+    readTables (H ++ wordsToBytes (P ++ fs.flatMap tableWords) ++ c)
       ((fs.zip (offsets fs (H.length + 2 * P.length))).map fun p => (p.1.tag, p.2))
       (H.length + 2 * P.length) = .ok fs
   | [], _, _, _, _ => rfl
@@ -93,14 +93,12 @@ theorem readTables_spec (H : Bytes) : ∀ (fs : List Feature) (P : List Nat),
       · decide
       · exact w16_lt _
       · exact (hf g hg).2 w hw
-    have hdrop : bytesToWords ((H ++ wordsToBytes (P ++ (f :: fs).flatMap tableWords)).drop
-        (H.length + 2 * P.length)) = (f :: fs).flatMap tableWords := by
-      rw [← List.drop_drop, List.drop_left]
-      have := drop_wordsToBytes_append' P ((f :: fs).flatMap tableWords) []
-      simp only [List.append_nil] at this
-      rw [this, bytesToWords_wordsToBytes _ hall]
+    have hdrop : bytesToWords ((H ++ wordsToBytes (P ++ (f :: fs).flatMap tableWords) ++ c).drop
+        (H.length + 2 * P.length)) = (f :: fs).flatMap tableWords ++ bytesToWords c := by
+      rw [List.append_assoc, ← List.drop_drop, List.drop_left,
+        drop_wordsToBytes_append' P ((f :: fs).flatMap tableWords) c, bytesToWords_append _ hall]
     -- the rest, with the prefix extended by this table
-    have ih := readTables_spec H fs (P ++ tableWords f)
+    have ih := readTables_spec H c fs (P ++ tableWords f)
       (fun g hg => hf g (by simp [hg]))
       (by intro w hw
           rw [List.mem_append] at hw
@@ -119,15 +117,16 @@ theorem readTables_spec (H : Bytes) : ∀ (fs : List Feature) (P : List Nat),
               (offsets (g :: gs) (H.length + 2 * P.length + 4 + 2 * f.lookups.length)).getLastD 0 := by
             simp [offsets, List.getLastD]
           rw [← this]; exact hlast)
-    have e1 : H ++ wordsToBytes ((P ++ tableWords f) ++ fs.flatMap tableWords) =
-        H ++ wordsToBytes (P ++ (f :: fs).flatMap tableWords) := by simp
+    have e1 : H ++ wordsToBytes ((P ++ tableWords f) ++ fs.flatMap tableWords) ++ c =
+        H ++ wordsToBytes (P ++ (f :: fs).flatMap tableWords) ++ c := by simp
     have e2 : H.length + 2 * (P ++ tableWords f).length =
         H.length + 2 * P.length + 4 + 2 * f.lookups.length := by
       simp only [List.length_append, tableWords, List.length_cons]; omega
     rw [e1, e2] at ih
-    generalize H ++ wordsToBytes (P ++ (f :: fs).flatMap tableWords) = b at hdrop ih ⊢
+    generalize H ++ wordsToBytes (P ++ (f :: fs).flatMap tableWords) ++ c = b at hdrop ih ⊢
     simp only [offsets, List.zip_cons_cons, List.map_cons, readTables, hdrop]
     simp only [List.flatMap_cons, tableWords, List.cons_append, w16_of_lt hl]
+    simp only [List.append_assoc]
     rw [if_neg (by omega), if_neg (by simp), List.take_left, ih]
 
 theorem recs_length (recs : List (Feature × Nat)) (h : ∀ p ∈ recs, p.1.tag.length = 4) :
@@ -140,8 +139,8 @@ theorem recs_length (recs : List (Feature × Nat)) (h : ∀ p ∈ recs, p.1.tag.
     omega
 
 theorem roundtrip (fl : List Feature) (D : Dom fl)
-    (hfit : (offsets fl (2 + 6 * fl.length)).getLastD 0 ≤ 0xFFFF) :
-    ∃ b, encode fl = .ok b ∧ read b = .ok fl := by
+    (hfit : (offsets fl (2 + 6 * fl.length)).getLastD 0 ≤ 0xFFFF) (tail : Bytes) :
+    ∃ b, encode fl = .ok b ∧ read (b ++ tail) = .ok fl := by
   have hn : fl.length < 65536 := by
     cases fl with
     | nil => simp
@@ -173,8 +172,8 @@ theorem roundtrip (fl : List Feature) (D : Dom fl)
   · rw [flatMap_tables]
     have hbe := be16_read fl.length hn
     rw [w16_of_lt hn, hbe.1]
-    simp only [List.cons_append, List.nil_append, read, hbe.2]
-    have hr := readRecs_spec (wordsToBytes (fl.flatMap tableWords))
+    simp only [List.cons_append, List.nil_append, List.append_assoc, read, hbe.2]
+    have hr := readRecs_spec (wordsToBytes (fl.flatMap tableWords) ++ tail)
       (fl.zip (offsets fl (2 + 6 * fl.length))) hzip
     rw [hzlen] at hr
     rw [hr]
@@ -188,9 +187,10 @@ theorem roundtrip (fl : List Feature) (D : Dom fl)
     have ht := readTables_spec
       (UInt8.ofNat (fl.length / 256 % 256) :: UInt8.ofNat (fl.length % 256) ::
         (fl.zip (offsets fl (2 + 6 * fl.length))).flatMap (fun p => p.1.tag.take 4 ++ be16 (w16 p.2)))
-      fl [] (fun f hf => (D.ok f hf).2) (by simp) (by rw [hH]; simpa using hfit)
+      tail fl [] (fun f hf => (D.ok f hf).2) (by simp) (by rw [hH]; simpa using hfit)
     rw [hH] at ht
-    simp only [List.nil_append, List.length_nil, Nat.mul_zero, Nat.add_zero, List.cons_append] at ht
+    simp only [List.nil_append, List.length_nil, Nat.mul_zero, Nat.add_zero, List.cons_append,
+      List.append_assoc] at ht
     exact ht
 
 theorem refusal (fl : List Feature) (h : (offsets fl (2 + 6 * fl.length)).getLastD 0 > 0xFFFF) :
